@@ -47,6 +47,14 @@ def gen_einsum(rnd, names=None, out_name="Z", ranks=None, max_ranks=4, max_terms
     """Return (decl fragment, Einsum, info).  Every term ranges over all
     non-output-only ranks (the compiler requires equal rank sets per term).
     force: optional stratum name."""
+    if names is None and rnd.random() < 0.1:
+        # tensor names in a prefix relation (A / AT / A0, T / T0 ...): name comparisons by
+        # prefix must not confuse a tensor with its namesake
+        base = rnd.sample(["A", "B", "T", "X"], 2)
+        fam = [base[0], base[0] + "T", base[0] + "0", base[1], base[1] + "A", base[0] + "TB",
+               base[1] + "1"]
+        rnd.shuffle(fam)
+        names = fam + [n for n in TNAMES if n not in fam and n not in ("Z",)]
     names = iter(names or TNAMES)
     pool = ranks or pick_pool(rnd)
     nr = rnd.randint(1, min(max_ranks, len(pool)))
